@@ -192,5 +192,81 @@ def rule_same(ctx):
     return res.finish(5)
 
 
+def rule_dispatch(ctx):
+    """Sibling agreement of enum dispatchers in the GLM: every arm of `match self { A => AImpl::f(..), B => BImpl::f(..) }`
+    must call the same method (functions stored in the same dispatch slot must be the same operation)."""
+    res = RuleResult("R-C12-dispatch", "every arm of a GLM link/distribution dispatcher calls the same method of its variant's implementation")
+    F = ctx.facts()
+    fns = [f for f in F.all_fns() if f["d"]["krate"] == "linfa_linear" and "/glm/" in fn_file(f) and (f["d"].get("self_adt") or "").split("::")[-1] in ("Link", "TweedieDistribution")]
+    n = 0
+    for fn in fns:
+        c = fn["crate"]
+        b = strip(fn["body"])
+        if b.get("k") != "Match" or b.get("src") != "Normal" or len(b["arms"]) < 2:
+            continue
+        if peel_refs(b["scrut"]).get("name") != "self":
+            continue
+        names = []
+        for a in b["arms"]:
+            body = strip(a["body"])
+            if body.get("k") == "Call":
+                d = c.dfn(strip(body["f"]).get("def")) if strip(body["f"]).get("k") == "Path" else None
+                names.append(d["name"] if d else "?")
+            elif body.get("k") == "MethodCall":
+                names.append(body["name"])
+            else:
+                names.append(None)
+        if None in names:
+            continue
+        n += 1
+        key = fn_key(fn)
+        res.instance("%s : arms call %s" % (key, sorted(set(names))))
+        if len(set(names)) == 1:
+            res.ok()
+            res.sample({"dispatcher": key, "method": names[0], "arms": len(names)})
+        else:
+            from collections import Counter
+            odd = [x for x, cnt in Counter(names).items() if cnt == 1]
+            res.violate("%s : arms-disagree" % key, "the arms of the dispatcher call different methods %s: one variant is dispatched to the wrong operation" % sorted(set(names)), fn_loc(fn))
+    return res.finish(3)
+
+
+def rule_penalty(ctx):
+    """The documented objectives carry the L2 penalty alpha: loss, gradient and the optimiser's cost/gradient adapters
+    must be influenced by alpha on every path (with and without intercept). A path that returns a value computed
+    without alpha is the objective of another problem, so the returned point is not stationary for the documented one."""
+    from .influence import Influence
+    res = RuleResult("R-C12-penalty", "on every path, each objective / gradient function (and its optimiser adapter) computes its value from the regularisation strength alpha")
+    F = ctx.facts()
+    targets = []
+    for nm in ("logistic_loss", "logistic_grad", "multi_logistic_loss", "multi_logistic_grad"):
+        fs = F.find_fns(name=nm, krate="linfa_logistic")
+        if not fs:
+            res.missing_anchor("linfa_logistic::%s" % nm)
+        targets += [(f, "param:alpha") for f in fs]
+    for krate, want in (("linfa_logistic", 4), ("linfa_linear", 2)):
+        fs = [f for f in F.all_fns() if f["d"]["krate"] == krate and f["d"]["name"] in ("cost", "gradient") and (f["d"].get("trait") or "").split("::")[-1] in ("CostFunction", "Gradient")]
+        if len(fs) < want:
+            res.missing_anchor("%s: optimiser adapters cost/gradient (expected %d, found %d)" % (krate, want, len(fs)))
+        targets += [(f, "self.alpha") for f in fs]
+    for f, src in targets:
+        key = fn_key(f)
+        inf = Influence(f).run()
+        rets = [r_ for r_ in inf.returns]
+        res.instance("%s : %d paths" % (key, len(rets)))
+        bad = [r_ for r_ in rets if src not in r_[0] and not (r_[0] and all(x.startswith("call:Err") for x in r_[0]))]
+        # error returns (`?` residuals) carry no objective value
+        bad = [r_ for r_ in bad if r_[1] is None or True]
+        if not rets:
+            res.violate("%s : no-return-paths" % key, "no return path found (fail closed)", fn_loc(f))
+        elif bad:
+            path = " / ".join(bad[0][2]) or "the only path"
+            res.violate("%s : path-without-penalty" % key, "on path [%s] the returned value is computed without `%s`: the L2 penalty is missing from that branch of the objective/gradient" % (path[:120], src.split(":")[-1]), fn_loc(f))
+        else:
+            res.ok()
+            res.sample({"fn": key, "paths": len(rets), "source": src})
+    return res.finish(10)
+
+
 def rules(tier):
-    return [rule_validate, rule_lse, rule_same]
+    return [rule_validate, rule_lse, rule_same, rule_dispatch, rule_penalty]
